@@ -23,8 +23,9 @@ RULES = {
     "R6": "results of functions that may return None (empty observed/unobserved views, ...) are None-checked before any dereference",
     "R7": "the screen file the commands pass along is written and read back without transformation (writer/reader table of Screen.save_h5 / load_h5)",
     "R8": "the derived screen attributes this property's code relies on (is_observed, n_plates, unique_plate_ids, size) have their documented definitions in ScreenBase and every override",
+    "R9": "the view algebra this property's code relies on: plates = one view per unique plate id, get_plate = the rows with that id, subset_(un)observed, combine / concat as unions over one parent (C14.R3 run here)",
 }
-MIN = {"R1": 5, "R2": 3, "R3": 2, "R4": 3, "R5": 3, "R6": 1, "R7": 16, "R8": 4}
+MIN = {"R1": 5, "R2": 3, "R3": 2, "R4": 3, "R5": 3, "R6": 1, "R7": 16, "R8": 4, "R9": 8}
 TRUSTED = ["numpy boolean indexing / np.isin semantics", "python ast"]
 TECHNIQUE = "dominance of refusal guards on the CFG, relational normal form of the mask expression, who-may-write scan"
 LEVEL_TEXT = ("Atomicity is an invariant re-established by the constructor at every operation (each operation builds its "
@@ -474,7 +475,12 @@ def r_derived(ctx):
     common.derived_attributes(ctx, "R8", ['is_observed', 'n_plates', 'unique_plate_ids', 'size'])
 
 
-RULE_FUNCS = [r1, r2, r3, r4, r5, r6, r7, r_derived]
+def r_views(ctx):
+    from . import C14
+    ctx.borrow(C14.r3, "R9")
+
+
+RULE_FUNCS = [r1, r2, r3, r4, r5, r6, r7, r_derived, r_views]
 
 
 def _rep(a, b):
